@@ -17,6 +17,7 @@ from __future__ import annotations
 import numpy as np
 
 import ast
+import json
 import math
 from fractions import Fraction
 
@@ -570,11 +571,170 @@ def judge_supplied_edges(ctx, m, fixed=None):
                  dict(fresh=a.tolist(), after=b.tolist()), None, ["agg_edge_eq"])
 
 
+# ---- the INPUT CONVENTION of the grid is a random dimension; the truth is the SOURCE description ----
+
+def draw_convention(rng, m):
+    """a source in one of the readers' input conventions, drawn by C01's own generators (harness/c01.py, imported):
+    from_topology / open_grid(dict) with (fill_value, start_index) in {(INT_FILL,0), (-1,0), (0,1), (-1,1), (999999,0), (n_node,0),
+    NaN-padded float, none} x int32/int64/float64, or a UGRID dataset in one of C01's dialects (optionally carrying its own
+    edge table in its own dialect)."""
+    from . import c01
+
+    if rng.random() < 0.6:
+        case = c01.gen_topology(rng, m)
+        dl = case["dialect"]
+        if rng.random() < 0.7:  # the listed conventions, uniformly (gen_topology alone rarely draws some of them)
+            fill, base = rng.choice([(INT_FILL, 0), (-1, 0), (0, 1), (0, 1), (-1, 1), (999999, 0), (m.n_node, 0), ("nan", rng.choice([0, 1]))])
+            dl["fill"], dl["base"] = fill, base
+            dl["store"] = "f64" if fill == "nan" else "i64" if fill == INT_FILL else rng.choice(["i32", "i64", "f64"])
+            dl["extra_w"] = rng.choice([0, 0, 1])
+    else:
+        case = c01.gen_ugrid(rng, m)
+        case["via_file"] = False
+        tabs = case["dialect"].get("tables") or {}
+        # only the source's own edge table is kept (exactly two columns: an edge has two nodes, never padding)
+        case["dialect"]["tables"] = {k: dict(v, extra_w=0) for k, v in tabs.items() if k == "edge_node_connectivity"}
+    return common._jsonable(case)
+
+
+def convention_grid(ux, case):
+    """build the grid from the drawn source (public constructors only); returns (grid, supplied edge list or None)"""
+    import xarray as xr
+
+    from . import c01
+
+    dl, faces, n = case["dialect"], case["faces"], len(case["lon"])
+    if case["fmt"] == "topology":
+        w = max(map(len, faces)) + dl["extra_w"]
+        arr = c01.conn_array(faces, w, dl["base"], dl["fill"], dl["store"])
+        fv = None if dl["fill"] is None else (np.nan if dl["fill"] == "nan" else dl["fill"])
+        kw = dict(node_lon=c01.src_lon(case), node_lat=np.asarray(case["lat"], float), face_node_connectivity=arr, fill_value=fv, start_index=dl["base"])
+        return (ux.open_grid(kw) if dl.get("api") == "dict" else ux.Grid.from_topology(**kw)), None
+    nm = dl["names"]
+
+    def table(rows, t):
+        w = max(map(len, rows)) + t["extra_w"]
+        fill = t["fill"]
+        if fill is None and any(len(r) != w for r in rows):
+            fill = -1
+        declared = t["declared"] or not any(0 in r for r in rows)  # an undeclared base only where index 0 is used (C01's quantifier)
+        at = {}
+        if fill == "nanattr":
+            at["_FillValue"] = np.nan
+        elif fill not in (None, "nan"):
+            at["_FillValue"] = c01.NP_STORE[t["store"]](fill)
+        if declared:
+            at["start_index"] = np.int32(t["base"])
+        return c01.conn_array(rows, w, t["base"], fill, t["store"]), at
+
+    ds = xr.Dataset()
+    ds[nm["mesh"]] = xr.DataArray(np.int32(0), attrs=dict(cf_role="mesh_topology", topology_dimension=2, node_coordinates=f"{nm['x']} {nm['y']}",
+                                                         face_node_connectivity=nm["conn"]))
+    ds[nm["x"]] = xr.DataArray(c01.src_lon(case), dims=[nm["nd"]], attrs=dict(standard_name="longitude", units="degrees_east"))
+    ds[nm["y"]] = xr.DataArray(np.asarray(case["lat"], float), dims=[nm["nd"]], attrs=dict(standard_name="latitude", units="degrees_north"))
+    arr, at = table(faces, dl)
+    ds[nm["conn"]] = xr.DataArray(arr, dims=[nm["fd"], nm["md"]], attrs=dict(at, cf_role="face_node_connectivity"))
+    supplied = None
+    t = (dl.get("tables") or {}).get("edge_node_connectivity")
+    if t:
+        supplied = [tuple(int(v) for v in e) for e in c01.ugrid_optional_elements(faces, n)["edge_node_connectivity"][0]]
+        earr, eat = table([list(e) for e in supplied], t)
+        var = nm["conn"] + "_edge_node"
+        if t.get("via") == "cf_role":
+            eat["cf_role"] = "edge_node_connectivity"
+        else:
+            ds[nm["mesh"]].attrs["edge_node_connectivity"] = var
+        ds[var] = xr.DataArray(earr, dims=["d0_rows", "d0_cols"], attrs=eat)
+    return ux.open_grid(ds), supplied
+
+
+def judge_convention(ctx, m, fixed=None):
+    """"over exactly each element's nodes" judged against the SOURCE: the rows Lean reduces over are the element lists of
+    the source description (faces as lists of node positions; the source's edges), NOT the grid's own tables, so a slip
+    of the reader/glue code (start_index, fill value, dtype handling) shows as a value failure here.  Second clause, as
+    before: the result is the reduction over the rows of the grid's own table (self-consistency)."""
+    import uxarray as ux
+
+    rng = ctx.rng
+    if fixed is None:
+        case = draw_convention(rng, m)
+        agg, dest = rng.choice(AGGS), rng.choice(["face", "face", "edge"])
+        dtype = rng.choice(["int", "float", "bool", "wild"])
+        lead = [rng.randint(1, 2) for _ in range(rng.choice([0, 0, 1]))]
+        data = make_data(rng, m.n_node, lead, dtype)
+    else:
+        case, agg, dest, dtype, lead = fixed["convention_case"], fixed["agg"], fixed["destination"], fixed["dtype"], list(fixed["lead"])
+        data = np.array(fixed["data"], dtype={"int": np.int64, "bool": bool}.get(dtype, np.float64)).reshape(tuple(lead) + (m.n_node,))
+    dl = case["dialect"]
+    conv = f"{case['fmt']}:fill={dl['fill']}/start={dl['base'] if dl.get('declared', True) else 'absent'}/{dl['store']}"
+    dims = [f"d{i}" for i in range(len(lead))] + ["n_node"]
+    inp = dict(mesh=m.describe(), table=m.rows(), convention_case=case, agg=agg, destination=dest, dtype=dtype, lead=lead, data=data.tolist())
+    ctx.case(("convention", m.rows(), json.dumps(case, sort_keys=True), agg, dest, dtype, data.tobytes().hex()[:48]), nontrivial=True)
+    ctx.hit("convention:" + conv.replace(str(m.n_node) + "/", "n_node/") if dl["fill"] == m.n_node else "convention:" + conv)
+    try:
+        g, supplied = convention_grid(ux, case)
+        uxda = ux.UxDataArray(data, dims=dims, uxgrid=g, name="v")
+    except Exception as e:  # whether the reader accepts the source is C01's subject
+        ctx.hit("convention:construct-raised:" + type(e).__name__)
+        return
+    try:
+        res = getattr(uxda, f"topological_{agg}")(destination=dest)
+        out = np.asarray(res.values)
+        own_t = [[int(v) for v in r] for r in g.face_node_connectivity.values] if dest == "face" else None
+        own_E = [tuple(int(v) for v in e) for e in g.edge_node_connectivity.values] if dest == "edge" else None
+    except Exception as e:
+        ctx.fail(f"C17/source/raises/{dest}/{type(e).__name__}", f"topological_{agg}({dest}) on a grid read from a source in convention {conv} raises "
+                 f"{type(e).__name__}: {e}", inp)
+        return
+    flatd = data.reshape(-1, m.n_node)
+    obs = dict(values=out.tolist(), grid_face_node_connectivity=own_t, grid_edge_node_connectivity=own_E)
+    if dest == "face":
+        src_struct, src_n, kind = enc_rows(m.rows()), m.n_face, "C17.qref"
+    else:
+        segs = sorted(tuple(sorted((f[i], f[(i + 1) % len(f)]))) for f in m.faces for i in range(len(f)))
+        segs = sorted(set(segs))
+        if supplied is not None:
+            src_E = supplied  # the source numbers its edges itself
+        else:
+            # the source leaves the edge numbering to the grid: the grid's edges must be exactly the boundary segments
+            # of the SOURCE faces (each once, either orientation); the values are then judged row by row
+            if sorted(tuple(sorted(e)) for e in own_E) != segs:
+                ctx.fail("C17/source/edge-set", f"the edges topological_{agg}(edge) reduces over are not the boundary segments of the source's faces "
+                         f"(convention {conv}): {len(own_E)} edges for {len(segs)} segments", inp, obs, dict(source_segments=segs), ["agg_edge_eq"])
+                return
+            src_E = own_E
+        src_struct, src_n, kind = enc_pairs(src_E), len(src_E), "C17.qedge"
+    if out.shape != tuple(lead) + (src_n,):
+        ctx.fail(f"C17/source/dims/{dest}", f"result shape {out.shape} but the source describes {src_n} {dest}s (convention {conv})", inp, obs, None, ["agg_dims"])
+        return
+    flato = out.reshape(-1, out.shape[-1])
+    ok, _, bad, vals = lean_judge(ctx, kind, agg, 0, src_struct, flatd, flato)
+    ctx.hit("lean-judged:source-truth:" + dest)
+    if not ok:
+        li, fb = bad
+        elem = (m.faces[fb] if dest == "face" else src_E[fb]) if 0 <= fb < src_n else None
+        ctx.fail(f"C17/source/value/{dest}", f"topological_{agg}({dest}) on a grid read from a source in convention {conv}: value {fb} (leading slice {li}) is not the "
+                 f"reduction over the nodes {list(elem) if elem is not None else None} of the SOURCE's {dest} {fb} (Lean accepts=false)", inp, obs,
+                 dict(exact=[[None if v is None else float(v) for v in vs] for vs in vals]), ["agg_face_eq" if dest == "face" else "agg_edge_eq", "accepts"])
+        return
+    # second clause: the reduction over the rows of the grid's OWN table
+    if dest == "face":
+        ok2, _, _, _ = lean_judge(ctx, "C17.qref", agg, 0, enc_rows(own_t), flatd, flato)
+    else:
+        ok2, _, _, _ = lean_judge(ctx, "C17.qedge", agg, 0, enc_pairs(own_E), flatd, flato)
+    if not ok2:
+        ctx.fail(f"C17/value/{dest}", f"topological_{agg}({dest}) is not the reduction over the rows of the grid's own table (convention {conv})", inp, obs, None,
+                 ["agg_face_eq" if dest == "face" else "agg_edge_eq", "accepts"])
+
+
 def run(ctx):
     ctx.rule = ("meshes from harness/meshes.zoo in random face order × (reduction, destination) × dtype int/float(dyadic)/bool/wild float "
                 "(arbitrary mantissas over 7 decades) × 0..2 leading dims × NumPy- or dask-backed source × ddof 0/1 for std/var; sub-grids "
                 "(isel n_face) of every mesh; grids with a SOURCE-SUPPLIED edge table (from_topology / UGRID dataset; random permutation of the edges, random "
-                "orientation per row) judged fresh and after a read that derives face_edge_connectivity; (centre, destination) decision table on n_node/n_edge/n_face/non-grid dims; distinct = distinct "
+                "orientation per row) judged fresh and after a read that derives face_edge_connectivity; the INPUT CONVENTION as a random dimension "
+                "(from_topology / open_grid(dict) with (fill, start_index) in {(INT_FILL,0),(-1,0),(0,1),(-1,1),(999999,0),(n_node,0),NaN-padded,none} x "
+                "int32/int64/float64; UGRID datasets in C01's dialects, drawn by harness/c01.py's generators) with the TRUTH rows taken from the "
+                "SOURCE description (mesh faces / source edges), the grid's own tables as a second clause; (centre, destination) decision table on n_node/n_edge/n_face/non-grid dims; distinct = distinct "
                 "(table, reduction, destination, dtype, ddof, shape, data); non-trivial = mixed face sizes or edge destination")
     ctx.assumptions = ["the ten reductions are modelled exactly over ℚ (Aggregate.core; std by its square); the verdict on every output is Lean's "
                        "`accepts` = within a float64 rounding allowance derived from the row length and Σ|x| (zero for min/max/all/any); inputs are "
@@ -590,6 +750,9 @@ def run(ctx):
     for m in ms:
         for _ in range(ctx.n(2, 3)):
             judge_supplied_edges(ctx, m)
+    for m in ms:
+        for _ in range(ctx.n(3, 5)):
+            judge_convention(ctx, m)
     for m in ms[:3] + [meshes.hull(4, ctx.rng)]:
         errors(ctx, m)
     source_correspondence(ctx)
@@ -606,5 +769,9 @@ def replay(ctx, rp):
         errors(ctx, m)
     elif "supplied_edges" in inp:
         judge_supplied_edges(ctx, m, inp)
+    elif "convention_case" in inp:
+        c = inp["convention_case"]
+        m = meshes.AMesh([list(f) for f in c["faces"]], np.array([meshes._ll(a, b) for a, b in zip(c["lon"], c["lat"])]), False, "replay")
+        judge_convention(ctx, m, inp)
     else:
         judge(ctx, m, "replay", inp.get("subset_faces"))
